@@ -156,6 +156,30 @@ func KeyIndex(key string) (prefix string, idx uint64, ok bool) {
 	return key[:i], n, true
 }
 
+// SameText reports whether two texts are equal. Under the engine, texts built
+// by fmt.Sprintf from symbolic numbers are compared structurally (same literal
+// parts, equal numbers) without rendering the numbers.
+func SameText(a, b string) bool { return a == b }
+
+// TextSkeleton returns the text with every decimal number replaced by '#'.
+func TextSkeleton(s string) string {
+	var sb strings.Builder
+	for i := 0; i < len(s); {
+		if (s[i] >= '0' && s[i] <= '9') || (s[i] == '-' && i+1 < len(s) && s[i+1] >= '0' && s[i+1] <= '9') {
+			j := i + 1
+			for j < len(s) && s[j] >= '0' && s[j] <= '9' {
+				j++
+			}
+			sb.WriteByte('#')
+			i = j
+			continue
+		}
+		sb.WriteByte(s[i])
+		i++
+	}
+	return sb.String()
+}
+
 // Param returns a per-tier parameter of the check configuration.
 func Param(name string, def int) int {
 	load()
